@@ -247,7 +247,11 @@ class MLMCPath(MCPath):
             times, path_coarse, jump_path_coarse
         )
         payoff_coarse = product(payoff_underlying_from_cp)
-        self.payoff = np.array([payoff_fine, payoff_coarse])
+        # fine/coarse is the LAST axis of the statistics (payoff component first)
+        self.payoff = np.stack(
+            [np.asarray(payoff_fine, dtype=float), np.asarray(payoff_coarse, dtype=float)],
+            axis=-1,
+        )
         self.process_spot_level_l(path_fine, path_coarse)
         self.payoff_control_variates = control_variates.process_mlmc(
             times,
@@ -269,8 +273,8 @@ class MLMCPath(MCPath):
         path = self.deterministic_path(times) + self.stochastic_path.value()
         jump_path = self.stochastic_path.value_jump()
         payoff_underlying = product.underlying_value(times, path, jump_path)
-        payoff = product(payoff_underlying)
-        self.payoff = np.array([payoff, 0.0])
+        payoff = np.asarray(product(payoff_underlying), dtype=float)
+        self.payoff = np.stack([payoff, np.zeros_like(payoff)], axis=-1)
         self.process_spot(path)
         self.payoff_control_variates = control_variates.process(
             times=times,
